@@ -341,3 +341,115 @@ def collector(E):
     else:
         E.prove('collector:no_request_while_window_not_full', z3.And(z3.Not(window_full), z3.Not(reached)))
     E.prove('collector:at_most_one_subscription_operation_per_element', len(ops) <= 1)
+
+
+# --------------------------------------------------------------------------- the awaitable front end (C07: resolved exactly once; C06: credit value)
+
+AWR = 'rsocket/awaitable/awaitable_rsocket.py::AwaitableRSocket'
+
+
+@harness('c07.collector.run', ['C07', 'C01'], functions=[COL + '.run', COL + '.on_error', COL + '.on_complete', COL + '.on_next'],
+         assumptions=['asyncio.Event: wait() returns once set() was called'])
+def collector_run(E):
+    E.import_module('asyncio')
+    col = E.call(E.lookup(COL), [])
+    sub = SOpaque('subscription', 'subscription')
+    log = OpaqueLog(E)
+    E.call(E.getattr(col, 'on_subscribe'), [sub])
+    v1, v2 = SOpaque('payload', 'e1'), SOpaque('payload', 'e2')
+    err = E.make_exc('RuntimeError', 'stream failed')
+    how = E.path.choice(3, 'stream-ends-by')          # 0 on_complete, 1 last element flagged complete, 2 on_error
+    signalled = []
+
+    def terminal():
+        E.call(E.getattr(col, 'on_next'), [v1, False])
+        if how == 0:
+            E.call(E.getattr(col, 'on_next'), [v2, False])
+            E.call(E.getattr(col, 'on_complete'), [])
+        elif how == 1:
+            E.call(E.getattr(col, 'on_next'), [v2, True])
+        else:
+            E.call(E.getattr(col, 'on_error'), [err])
+        signalled.append(True)
+
+    def on_suspend(E_, what):
+        # the awaitable is parked until the stream terminates
+        if what[0] == 'event.wait' and not signalled:
+            E_.prove('run:does_not_resolve_before_the_stream_has_terminated', what[1].attrs.get('flag') is not True)
+            terminal()
+        return None
+    E.suspend_hook = on_suspend
+    early = E.path.choice(2, 'terminated-before-run-is-awaited') == 1
+    if early:
+        terminal()
+    try:
+        r = E.await_value(E.call(E.getattr(col, 'run'), []))
+    except PyExc as e:
+        E.cover('failed')
+        E.prove('run:raises_exactly_the_stream_error', how == 2 and e.value is err)
+        return
+    E.cover('resolved')
+    E.prove('run:resolves_normally_only_for_a_completed_stream', how in (0, 1))
+    E.prove('run:result_is_every_element_once_in_order', len(r) == 2 and r[0] is v1 and r[1] is v2)
+
+
+def _awaitable(kind):
+    def run(E):
+        E.import_module('asyncio')
+        sock = SOpaque('rsocket', 'rsocket')
+        rate = E.fresh_int('limit_rate', 1, 0x7FFFFFFF)
+        stream = SOpaque('publisher', 'response-stream')
+        payload = SOpaque('payload', 'request')
+        pub = SOpaque('publisher', 'local-publisher') if kind == 'channel' else None
+        seen = {}
+
+        def subscribe(E_, o, m, a, k):
+            seen['subscriber'] = a[0]
+            # the stream completes at once with nothing (enough to observe what was wired up)
+            E_.call(E_.getattr(a[0], 'on_subscribe'), [SOpaque('subscription', 'subscription')])
+            E_.call(E_.getattr(a[0], 'on_complete'), [])
+        log = OpaqueLog(E, returns={'request_stream': lambda *a: stream, 'request_channel': lambda *a: stream,
+                                    'initial_request_n': lambda E_, o, m, a, k: o, ('publisher', 'subscribe'): subscribe})
+        E.suspend_hook = lambda E_, what: None
+        aw = E.call(E.lookup(AWR), [sock])
+        if kind == 'stream':
+            r = E.await_value(E.call(E.getattr(aw, 'request_stream'), [payload, rate]))
+        else:
+            r = E.await_value(E.call(E.getattr(aw, 'request_channel'), [payload, pub, rate]))
+        E.cover('awaited')
+        reqs = [c for c in log.of(sock) if c[1] in ('request_stream', 'request_channel')]
+        E.prove('awaitable:exactly_one_request_of_that_kind_with_the_payload',
+                len(reqs) == 1 and reqs[0][1] == 'request_' + kind and reqs[0][2][0] is payload)
+        if kind == 'channel':
+            E.prove('awaitable:local_publisher_passed_on', reqs[0][3].get('publisher', reqs[0][2][1] if len(reqs[0][2]) > 1 else None) is pub)
+        irn = [c for c in log.of(stream) if c[1] == 'initial_request_n']
+        E.prove('awaitable:initial_request_n_is_exactly_the_limit_rate', len(irn) == 1 and irn[0][2][0] is rate)
+        subs = [c for c in log.of(stream) if c[1] == 'subscribe']
+        E.prove('awaitable:subscribed_once_with_a_collector_of_that_rate',
+                len(subs) == 1 and isinstance(subs[0][2][0], SObj) and subs[0][2][0].cls.name == 'CollectorSubscriber'
+                and subs[0][2][0].attrs['_limit_rate'] is rate)
+        E.prove('awaitable:credit_is_requested_before_subscribing', log.calls.index(irn[0]) < log.calls.index(subs[0]))
+        E.prove('awaitable:result_is_the_collected_list', r is seen['subscriber'].attrs['values'])
+    return run
+
+
+for _k in ('stream', 'channel'):
+    harness('c06.awaitable.request_%s' % _k, ['C06', 'C01', 'C07'], functions=[AWR + '.request_' + _k, AWR + '.__init__', COL + '.run'],
+            assumptions=['RSocket.request_stream / request_channel are used through K-APP: they return a publisher whose initial_request_n '
+                         'returns itself (as StreamHandler does)'])(_awaitable(_k))
+
+
+@harness('c07.awaitable.request_response', ['C07', 'C01'], functions=[AWR + '.request_response', AWR + '.fire_and_forget', AWR + '.metadata_push'])
+def awaitable_rr(E):
+    E.import_module('asyncio')
+    sock = SOpaque('rsocket', 'rsocket')
+    fut = aio.new_future(E, 'result', SOpaque('payload', 'response'))
+    payload = SOpaque('payload', 'request')
+    log = OpaqueLog(E, returns={'request_response': lambda *a: fut, 'fire_and_forget': lambda *a: fut, 'metadata_push': lambda *a: fut})
+    aw = E.call(E.lookup(AWR), [sock])
+    r = E.await_value(E.call(E.getattr(aw, 'request_response'), [payload]))
+    E.cover('awaited')
+    E.prove('awaitable_rr:one_request_with_the_payload_result_of_its_own_future',
+            [(c[1], c[2]) for c in log.of(sock)] == [('request_response', (payload,))] and r is fut.attrs['value'])
+    E.prove('awaitable:fnf_and_push_delegate_unchanged', E.call(E.getattr(aw, 'fire_and_forget'), [payload]) is fut
+            and E.call(E.getattr(aw, 'metadata_push'), [b'm']) is fut)
